@@ -32,6 +32,9 @@ CharStarts(b) == IF b = <<>> THEN 0 ELSE (IF Head(b) = "L" THEN 1 ELSE 0) + Char
 \* ---- writer state: [rem, tofill, rbuf, out, k] ; configuration from prm ----
 Accept(k) == script[((k - 1) % Len(script)) + 1]
 HasMax == prm.max >= 0
+\* the sink accepts a prefix of what it is offered; an accept value of 0 stands for ErrorKind::Interrupted: nothing is
+\* accepted, the error travels up through the width writers, and write_all / write_fmt at the top repeat the call
+\* with the same bytes - so a call that accepted nothing must leave every counter as it was
 SinkWrite(st, buf) ==
   LET n == Min(Len(buf), Accept(st.k)) IN
   [st |-> [st EXCEPT !.out = @ \o SubSeq(buf, 1, n), !.k = @ + 1], n |-> n]
@@ -112,7 +115,8 @@ ChoosePrm == stage = 1 /\ stage' = 2 /\ \E mn \in Widths, mx \in Widths, al \in 
              /\ UNCHANGED <<text, cuts, script>>
 RECURSIVE Scripts(_)
 Scripts(n) == IF n = 0 THEN {<<>>} ELSE {Append(s, a) : s \in Scripts(n - 1), a \in Accepts}
-ChooseScript == stage = 2 /\ stage' = 3 /\ script' \in Scripts(ScriptLen) /\ UNCHANGED <<text, cuts, prm>>
+ChooseScript == stage = 2 /\ stage' = 3 /\ script' \in {sc \in Scripts(ScriptLen) : \E i \in 1..Len(sc) : sc[i] # 0}
+                /\ UNCHANGED <<text, cuts, prm>>
 Next == GrowText \/ ChooseCuts \/ ChoosePrm \/ ChooseScript
 
 \* the exact law is stated for min <= max (when both are given)
